@@ -13,7 +13,7 @@ from ..utils import exceptions as exc
 from ..utils.compat import (ForwardRef, Literal, Self, evaluate_forward_ref,
                             get_args, get_origin, UnionType)
 from ..utils.datastructures import unprovided
-from ..utils.functional import multi, pop
+from ..utils.functional import multi, pop, copy_value
 from ..utils.transform import TypeTransformer
 from ..settings import warning_settings
 from .options import RuntimeContext
@@ -1048,7 +1048,8 @@ class Constraints:
 
     @classmethod
     def lax_const(cls, value, v):
-        return v
+        # a value of its own (like a default): changing the result must not change the declared constant
+        return copy_value(v)
 
     @classmethod
     def enum(cls, value, lst):
@@ -1073,7 +1074,7 @@ class Constraints:
             value = value.value
 
         if value not in lst:
-            return list(lst)[0]
+            return copy_value(list(lst)[0])
         return value
 
     @classmethod
